@@ -270,6 +270,82 @@ informational heads either way). -/
 theorem expect100_irrelevant (B : Nat) (q : ConnReq) (x : Bool) (s : Bytes) :
     exchange B { q with expect100 := x } s = exchange B q s := rfl
 
+/-! ### where `Attributed` comes from: two parametric families -/
+
+/-- Any head that keeps the connection (no `Close`, status ≥ 200, no protocol switch) with a
+declared length `n`, followed by exactly `n` body bytes, read to the end by a non-HEAD caller:
+the exchange delivers exactly these bytes and leaves nothing. -/
+theorem attributed_length {B : Nat} {hd body : Bytes} {m : Msg} {n : Nat} (x : Bool)
+    (hp : parseFinalHead 6 false hd = some (m, []))
+    (hf : m.framing = .length n) (hn : body.length = n)
+    (hclose : m.close = false) (h200 : 200 ≤ m.sl.code) (hsw : isProtocolSwitch m = false) :
+    exchange B ⟨false, false, x, .full⟩ (hd ++ body) =
+      (.resp m body .eof (declMap m.trailerDecl), some []) := by
+  have hp' := parseFinalHead_append hp body
+  simp only [List.nil_append] at hp'
+  obtain ⟨sl, h0, hrt⟩ := parseFinalHead_readTransfer hp
+  have hb : readBody B m body = ⟨body, true, declMap m.trailerDecl, []⟩ := by
+    simp [readBody, hf, ← hn]
+  have hre : connReusable (.resp m (readBody B m body))
+      ⟨false, false, false, false, true, true, true⟩ = true := by
+    unfold connReusable
+    rw [hb]
+    apply (keepalive_iff hrt _ rfl).mpr
+    obtain ⟨_, _, _, _, _, hsl, _⟩ := readTransfer_inv hrt
+    exact ⟨hclose, rfl, hsl ▸ h200, rfl, Or.inr rfl, rfl, rfl, rfl⟩
+  unfold exchange
+  simp only [hp', hsw, Bool.false_eq_true, if_false, Consume.readsAll, if_true, hre]
+  simp [hb]
+
+/-- The same for a chunked message: any head that keeps the connection with chunked framing,
+followed by the chunked writer's output for ANY split of the body into non-empty chunks and the
+final CRLF (no trailers sent). -/
+theorem attributed_chunked {B : Nat} (hB : 18 ≤ B) {hd : Bytes} {m : Msg} (x : Bool)
+    (hp : parseFinalHead 6 false hd = some (m, []))
+    (hf : m.framing = .chunked)
+    (hclose : m.close = false) (h200 : 200 ≤ m.sl.code) (hsw : isProtocolSwitch m = false)
+    (chunks : List Bytes) (hne : ∀ c ∈ chunks, c ≠ []) (hsz : ∀ c ∈ chunks, c.length < 2 ^ 61) :
+    exchange B ⟨false, false, x, .full⟩ (hd ++ (encodeChunked chunks ++ [CR, LF])) =
+      (.resp m chunks.flatten .eof (declMap m.trailerDecl), some []) := by
+  have hp' := parseFinalHead_append hp (encodeChunked chunks ++ [CR, LF])
+  simp only [List.nil_append] at hp'
+  obtain ⟨sl, h0, hrt⟩ := parseFinalHead_readTransfer hp
+  have hb : readBody B m (encodeChunked chunks ++ [CR, LF]) =
+      ⟨chunks.flatten, true, declMap m.trailerDecl, []⟩ := by
+    have := chunked_body_roundtrip hB hf chunks hne hsz []
+    simpa using this
+  have hre : connReusable (.resp m (readBody B m (encodeChunked chunks ++ [CR, LF])))
+      ⟨false, false, false, false, true, true, true⟩ = true := by
+    unfold connReusable
+    rw [hb]
+    apply (keepalive_iff hrt _ rfl).mpr
+    obtain ⟨_, _, _, _, _, hsl, _⟩ := readTransfer_inv hrt
+    exact ⟨hclose, rfl, hsl ▸ h200, rfl, Or.inr rfl, rfl, rfl, rfl⟩
+  unfold exchange
+  simp only [hp', hsw, Bool.false_eq_true, if_false, Consume.readsAll, if_true, hre]
+  simp [hb]
+
+/-- `attributed_length` as a constructor of `Attributed`: every keep-alive Content-Length
+message qualifies, so `sequence_attribution` applies to every pipelined run of such messages. -/
+def Attributed.ofLength {B : Nat} {hd body : Bytes} {m : Msg} {n : Nat}
+    (hp : parseFinalHead 6 false hd = some (m, []))
+    (hf : m.framing = .length n) (hn : body.length = n)
+    (hclose : m.close = false) (h200 : 200 ≤ m.sl.code) (hsw : isProtocolSwitch m = false) :
+    Attributed B :=
+  ⟨⟨false, false, false, .full⟩, hd ++ body, .resp m body .eof (declMap m.trailerDecl),
+    attributed_length false hp hf hn hclose h200 hsw⟩
+
+/-- … and every keep-alive chunked message, for every split of its body into chunks. -/
+def Attributed.ofChunked {B : Nat} (hB : 18 ≤ B) {hd : Bytes} {m : Msg}
+    (hp : parseFinalHead 6 false hd = some (m, []))
+    (hf : m.framing = .chunked)
+    (hclose : m.close = false) (h200 : 200 ≤ m.sl.code) (hsw : isProtocolSwitch m = false)
+    (chunks : List Bytes) (hne : ∀ c ∈ chunks, c ≠ []) (hsz : ∀ c ∈ chunks, c.length < 2 ^ 61) :
+    Attributed B :=
+  ⟨⟨false, false, false, .full⟩, hd ++ (encodeChunked chunks ++ [CR, LF]),
+    .resp m chunks.flatten .eof (declMap m.trailerDecl),
+    attributed_chunked hB false hp hf hclose h200 hsw chunks hne hsz⟩
+
 /-! ### non-vacuity: concrete messages -/
 
 namespace Ex
